@@ -980,6 +980,7 @@ func ruleBinOpIterators(r *Run) {
 	}
 	bad := false
 	nLit := 0
+	litDeferred := false // a LiteralBinOp site whose arguments are a helper's parameters: decided on paths below
 	var groupCalls []ssa.CallInstruction
 	for _, gf := range funcGroup(bf) {
 		groupCalls = append(groupCalls, callsIn(gf)...)
@@ -994,8 +995,7 @@ func ruleBinOpIterators(r *Run) {
 			nLit++
 			flag, okf := constOf(call.Call.Args[3])
 			if !okf {
-				bad = true
-				ob.Undecide(r.pos(call.Pos()), "left flag is not constant")
+				litDeferred = true
 				continue
 			}
 			left := constant.BoolVal(flag)
@@ -1035,7 +1035,65 @@ func ruleBinOpIterators(r *Run) {
 			}
 		}
 	}
-	if nLit != 2 {
+	if (nLit != 2 || litDeferred) && !bad {
+		// the two scalar forms may share a helper: walk build with its helpers inlined and read, at each
+		// LiteralBinOp event, where the scalar, the vector and the flag come from on that path
+		grp := map[*ssa.Function]bool{}
+		for _, gf := range funcGroup(bf) {
+			grp[gf] = true
+		}
+		isB := func(f *ssa.Function) bool { return f == bf }
+		w := &feWalker{Fn: bf, MaxPath: 20000, P: p, Inline: func(c *ssa.Function, d int) bool {
+			return grp[c] && !isB(c) && c.Parent() == nil && !isFunc(c, modPath+"/"+metricPkg, "LiteralBinOp") && !isFunc(c, modPath+"/"+metricPkg, "BinOp") && d <= 2
+		}}
+		ends := w.Run()
+		seen := map[bool]bool{}
+		if w.Aborted {
+			bad = true
+			ob.Undecide(r.pos(bf.Pos()), "path enumeration aborted")
+		}
+		for _, e := range ends {
+			if e.Cut {
+				continue
+			}
+			for _, ev := range e.State.calls {
+				call, ok := ev.Call.(*ssa.Call)
+				if !ok || !callIs(call, modPath+"/"+metricPkg, "LiteralBinOp") || len(ev.Args) < 4 {
+					continue
+				}
+				if !ev.Args[3].Known {
+					bad = true
+					ob.Undecide(r.pos(call.Pos()), "left flag is not constant on a path")
+					continue
+				}
+				left := constant.BoolVal(ev.Args[3].C)
+				seen[left] = true
+				litSide := literalAssertSide(ev.Args[2].V)
+				iterSide := ""
+				if bc, _, ok := extractOf(ev.Args[0].V); ok && callIs(bc, modPath+"/"+metricPkg, "build") {
+					for _, ev2 := range e.State.calls {
+						if ev2.Call == ssa.CallInstruction(bc) && len(ev2.Args) > 0 {
+							if f, _, ok := loadOfField(ev2.Args[0].V); ok {
+								iterSide = f
+							}
+						}
+					}
+				}
+				wantLit, wantIter := "Right", "Left"
+				if left {
+					wantLit, wantIter = "Left", "Right"
+				}
+				if litSide != wantLit || iterSide != wantIter {
+					bad = true
+					ob.Fail(r.pos(call.Pos()), "LiteralBinOp(.., left=%v) takes the scalar from expr.%s and the vector from expr.%s on a path; expected %s and %s", left, litSide, iterSide, wantLit, wantIter)
+				}
+			}
+		}
+		if !bad && !(seen[true] && seen[false]) {
+			bad = true
+			ob.Fail(r.pos(bf.Pos()), "expected a scalar-left and a scalar-right LiteralBinOp path, found left=true:%v left=false:%v", seen[true], seen[false])
+		}
+	} else if nLit != 2 || litDeferred {
 		bad = true
 		ob.Fail(r.pos(bf.Pos()), "expected two LiteralBinOp call sites (scalar left / scalar right), found %d", nLit)
 	}
